@@ -31,8 +31,13 @@ Proof. intros H. unfold nonws. cbn [filter]. rewrite H. reflexivity. Qed.
 Lemma not_eol_eolb c : not_eol c = true -> eolb c = false.
 Proof. unfold not_eol, is_eol, eolb. intros H. apply negb_true_iff in H. exact H. Qed.
 
-Lemma delta_N_ws V c : eolb c || blankb c = true -> delta (V, AN) c = (V, AN).
-Proof. intros H. unfold delta. rewrite H. reflexivity. Qed.
+Lemma delta_N_blank V c : is_blank c = true -> delta (V, AN) c = (V, AN).
+Proof.
+  intros H. unfold is_blank in H. apply orb_true_iff in H. destruct H as [H|H]; apply Z.eqb_eq in H; subst c; reflexivity.
+Qed.
+
+Lemma delta_N_eol V c : is_eol c = true -> delta (V, AN) c = (emitn V, AN).
+Proof. intros H. unfold delta. change (eolb c) with (is_eol c). rewrite H. reflexivity. Qed.
 
 Lemma afold_cons c s cf : afold (c :: s) cf = afold s (delta cf c).
 Proof. reflexivity. Qed.
@@ -40,16 +45,16 @@ Proof. reflexivity. Qed.
 Lemma afold_blanks a V : forallb is_blank a = true -> afold a (V, AN) = (V, AN).
 Proof.
   induction a as [|c r IH]; intros H; [reflexivity|]. cbn [forallb] in H. apply andb_true_iff in H. destruct H as [Hc Hr].
-  rewrite afold_cons, delta_N_ws; [apply IH, Hr|]. change (blankb c) with (is_blank c). rewrite Hc. apply orb_true_r.
+  rewrite afold_cons, delta_N_blank by exact Hc. apply IH, Hr.
 Qed.
 
 (* ---------- states in which the text read so far is an end-of-line comment ---------- *)
 Definition lineish (st : ast) (a : list Z) : Prop := st = AC2 a \/ st = AC3 a \/ st = AC3e a \/ st = AL a.
 
-Lemma lineish_eol V st a c : lineish st a -> eolb c = true -> delta (V, st) c = (V ++ [a], AN).
+Lemma lineish_eol V st a c : lineish st a -> eolb c = true -> delta (V, st) c = (emitn (emitc V a), AN).
 Proof. intros [->|[->|[->| ->]]] H; unfold delta, lstep; rewrite H; reflexivity. Qed.
 
-Lemma lineish_final V st a : lineish st a -> afinal (V, st) = Some (V ++ [a], EL).
+Lemma lineish_final V st a : lineish st a -> afinal (V, st) = Some (emitc V a, EL).
 Proof. intros [->|[->|[->| ->]]]; reflexivity. Qed.
 
 Lemma afold_L p : forall V a, forallb not_eol p = true -> afold p (V, AL a) = (V, AL (a ++ nonws p)).
@@ -216,12 +221,12 @@ Proof. rewrite long_close_here_eq. destruct s as [|c r]; reflexivity. Qed.
 
 (* the lexer's scan for `]]` and the automaton's *)
 Lemma B_fwd s : forall b cl rest V a, long_body 0 s = Some (b, cl, rest) ->
-  afold (b ++ cl) (V, AB a) = (V ++ [a ++ nonws (b ++ cl)], AN).
+  afold (b ++ cl) (V, AB a) = (emitc V (a ++ nonws (b ++ cl)), AN).
 Proof.
   induction s as [|c s IH]; intros b cl rest V a H; [discriminate|]. cbn [long_body] in H.
   destruct (if c =? 93 then long_close_here 0 s else None) as [r0|] eqn:E.
   - injection H as <- <- <-. destruct (c =? 93) eqn:Ec; [|discriminate]. apply Z.eqb_eq in Ec. subst c.
-    cbn [repeat app]. change (afold [93; 93] (V, AB a)) with (V ++ [(a ++ [93]) ++ [93]], AN). rewrite <- app_assoc. reflexivity.
+    cbn [repeat app]. change (afold [93; 93] (V, AB a)) with (emitc V ((a ++ [93]) ++ [93]), AN). rewrite <- app_assoc. reflexivity.
   - destruct (long_body 0 s) as [[[b' cl'] rest0]|] eqn:El; [|discriminate]. injection H as <- <- <-.
     cbn [app]. rewrite afold_cons. destruct (long_body_ctx _ _ _ _ _ El) as (Hcl & Hs & _).
     destruct (c =? 93) eqn:Ec.
@@ -288,6 +293,25 @@ Definition views (T : list stok) : list (list Z) := flat_map tview T.
 
 Definition trivial (t : stok) : Prop := LuaLex.is_trivia t = true.
 
+(* what a trivia token adds to the automaton's report *)
+Definition addtok (O : aout) (t : stok) : aout :=
+  match s_kind t with
+  | SComment => emitc O (nonws (s_raw t))
+  | SNewline => emitn O
+  | _ => O
+  end.
+Definition addtoks (O : aout) (T : list stok) : aout := fold_left addtok T O.
+
+Definition is_nlk (t : stok) : bool := match s_kind t with SNewline => true | _ => false end.
+
+Lemma addtoks_spec T : forall O, addtoks O T = (fst O ++ views T, snd O || existsb is_nlk T).
+Proof.
+  induction T as [|t T IH]; intros [V b]; [cbn; rewrite app_nil_r, orb_false_r; reflexivity|].
+  unfold addtoks. cbn [fold_left]. fold (addtoks (addtok (V, b) t) T). rewrite IH.
+  cbn [views flat_map existsb]. fold (views T). unfold addtok, tview, is_nlk. destruct (s_kind t); cbn [fst snd emitc emitn orb app];
+    rewrite ?app_nil_r, <- ?app_assoc, ?orb_true_r; reflexivity.
+Qed.
+
 Lemma line_comment_stop a rest : forallb not_eol a = true -> stops not_eol rest ->
   line_comment (a ++ rest) = Some (mk SComment a a, rest).
 Proof. intros Ha Hr. unfold line_comment. fold not_eol. rewrite (span_ctx not_eol a rest Ha Hr). reflexivity. Qed.
@@ -300,15 +324,15 @@ Qed.
 
 (* ---------- one trivia token ---------- *)
 Lemma tok_afold s t s' V : spec_step s = Some (t, s') -> trivial t ->
-  afold (s_raw t) (V, AN) = (V ++ tview t, AN) \/
-  (exists st, lineish st (nonws (s_raw t)) /\ afold (s_raw t) (V, AN) = (V, st) /\ tview t = [nonws (s_raw t)] /\ stops not_eol s').
+  afold (s_raw t) (V, AN) = (addtok V t, AN) \/
+  (exists st, lineish st (nonws (s_raw t)) /\ afold (s_raw t) (V, AN) = (V, st) /\ s_kind t = SComment /\ stops not_eol s').
 Proof.
   intros H Ht. pose proof (spec_step_shape _ _ _ H) as Sh. unfold trivial in Ht. destruct Sh.
-  - (* space *) left. cbn [s_raw mk tview s_kind]. rewrite app_nil_r. apply afold_blanks. eapply span_all; eassumption.
-  - left. cbn [tview s_kind mk s_raw]. rewrite app_nil_r. reflexivity.
-  - left. cbn [tview s_kind mk s_raw]. rewrite app_nil_r. reflexivity.
+  - (* space *) left. unfold addtok. cbn [s_raw mk s_kind]. apply afold_blanks. eapply span_all; eassumption.
+  - left. reflexivity.
+  - left. reflexivity.
   - (* block *) left. destruct (long_open_spec _ _ _ _ H0) as (k & Hk & ->). assert (k = O) by lia. subst k. cbn [repeat app] in *.
-    cbn [s_raw mk tview s_kind].
+    unfold addtok. cbn [s_raw mk s_kind].
     change (45 :: 45 :: 91 :: 91 :: b ++ cl) with ([45; 45; 91; 91] ++ (b ++ cl)).
     rewrite afold_app. change (afold [45; 45; 91; 91] (V, AN)) with (V, AB [45; 45; 91; 91]).
     rewrite (B_fwd _ _ _ _ V [45; 45; 91; 91] H1). reflexivity.
@@ -322,7 +346,7 @@ Proof.
       - destruct L as (lvl & r & L & _). unfold lo in L. destruct r2 as [|c r3]; [discriminate|].
         destruct (c =? 91) eqn:Ec; [|discriminate]. apply Z.eqb_eq in Ec. subst c. rewrite L in H0. discriminate H0. }
     destruct (auto_class_line p V Hcl Ha) as (st & Hl & Hf).
-    exists st. cbn [s_raw mk tview s_kind].
+    exists st. cbn [s_raw mk s_kind].
     assert (Hn : nonws (45 :: 45 :: p) = [45; 45] ++ nonws p) by reflexivity.
     rewrite Hn. split; [exact Hl|]. split; [|split; [reflexivity | exact Hst]].
     change (45 :: 45 :: p) with ([45; 45] ++ p). rewrite afold_app. exact Hf.
@@ -330,7 +354,7 @@ Proof.
     destruct (span_cons_true not_eol 47 _ _ _ eq_refl H0) as (a1 & -> & H2).
     destruct (span_cons_true not_eol 47 _ _ _ eq_refl H2) as (p & -> & H3).
     pose proof (span_all _ _ _ _ H3) as Ha. pose proof (span_stop _ _ _ _ H3) as Hst.
-    exists (AL ([47; 47] ++ nonws p)). cbn [s_raw mk tview s_kind].
+    exists (AL ([47; 47] ++ nonws p)). cbn [s_raw mk s_kind].
     assert (Hn : nonws (47 :: 47 :: p) = [47; 47] ++ nonws p) by reflexivity.
     rewrite Hn. split; [right; right; right; reflexivity|]. split; [|split; [reflexivity | exact Hst]].
     change (47 :: 47 :: p) with ([47; 47] ++ p). rewrite afold_app. change (afold [47; 47] (V, AN)) with (V, AL [47; 47]).
@@ -347,36 +371,34 @@ Qed.
 (* ---------- (A) a stretch of trivia tokens is accepted, with its comments ---------- *)
 Lemma seg_arun s T r : seg s T r -> Forall trivial T ->
   (r = [] \/ exists c r', r = c :: r' /\ is_eol c = false) ->
-  forall V cf,
-    (cf = (V, AN) \/ exists V0 st a, lineish st a /\ cf = (V0, st) /\ V = V0 ++ [a] /\ stops not_eol s) ->
-    exists E, arun cf (rawtxt T) = Some (V ++ views T, E) /\ (E = EL -> r = []).
+  forall (V : aout) (cf : acfg),
+    (cf = (V, AN) \/ exists V0 st a, lineish st a /\ cf = (V0, st) /\ V = emitc V0 a /\ stops not_eol s) ->
+    exists E, arun cf (rawtxt T) = Some (addtoks V T, E) /\ (E = EL -> r = []).
 Proof.
   induction 1 as [s|s t s' T r Hs Hseg IH]; intros HT Hr V cf Hcf.
-  - cbn [rawtxt map concat views flat_map]. rewrite app_nil_r. destruct Hcf as [->|(V0 & st & a & Hl & -> & -> & Hst)].
+  - cbn [rawtxt map concat]. destruct Hcf as [->|(V0 & st & a & Hl & -> & -> & Hst)].
     + exists EN. split; [reflexivity | discriminate].
     + exists EL. split; [apply lineish_final, Hl|]. intros _. destruct Hr as [->|(c & r' & -> & Hc)]; [reflexivity|].
       cbn [stops] in Hst. unfold not_eol in Hst. rewrite Hc in Hst. discriminate Hst.
   - inversion HT as [|? ? Ht HT']; subst. unfold rawtxt. cbn [map concat]. fold (rawtxt T).
-    cbn [views flat_map]. fold (views T). rewrite arun_app.
+    change (addtoks V (t :: T)) with (addtoks (addtok V t) T). rewrite arun_app.
     destruct Hcf as [->|(V0 & st & a & Hl & -> & -> & Hst)].
-    + destruct (tok_afold s t s' V Hs Ht) as [Hf|(st & Hl & Hf & Hv & Hst)].
-      * rewrite Hf. destruct (IH HT' Hr (V ++ tview t) _ (or_introl eq_refl)) as (E & HE & HE').
-        exists E. split; [rewrite HE, <- app_assoc; reflexivity | exact HE'].
-      * rewrite Hf. destruct (IH HT' Hr (V ++ tview t) (V, st)) as (E & HE & HE').
-        { right. exists V, st, (nonws (s_raw t)). rewrite Hv. auto. }
-        exists E. split; [rewrite HE, <- app_assoc; reflexivity | exact HE'].
+    + destruct (tok_afold s t s' V Hs Ht) as [Hf|(st & Hl & Hf & Hk & Hst)].
+      * rewrite Hf. exact (IH HT' Hr (addtok V t) _ (or_introl eq_refl)).
+      * rewrite Hf. apply (IH HT' Hr (addtok V t) (V, st)).
+        right. exists V, st, (nonws (s_raw t)). unfold addtok. rewrite Hk. auto.
     + (* after an end-of-line comment: the next token is a line break *)
       destruct (spec_step_split _ _ _ Hs) as [Esp Hne]. destruct s as [|c s1]; [destruct (s_raw t); [congruence | discriminate Esp]|].
       cbn [stops] in Hst. unfold not_eol in Hst. apply negb_false_iff in Hst.
       unfold is_eol in Hst. apply orb_true_iff in Hst. destruct Hst as [Hc|Hc]; apply Z.eqb_eq in Hc; subst c.
       * change (spec_step (10 :: s1)) with (Some (mk SNewline [10] [10], s1)) in Hs. injection Hs as <- <-.
-        cbn [s_raw mk tview s_kind app]. rewrite afold_cons, (lineish_eol V0 st a 10 Hl eq_refl).
-        exact (IH HT' Hr (V0 ++ [a]) _ (or_introl eq_refl)).
+        cbn [s_raw mk]. rewrite afold_cons, (lineish_eol V0 st a 10 Hl eq_refl).
+        exact (IH HT' Hr _ _ (or_introl eq_refl)).
       * destruct s1 as [|d s2]; [discriminate Hs|]. destruct (d =? 10) eqn:Ed.
         -- apply Z.eqb_eq in Ed. subst d.
            change (spec_step (13 :: 10 :: s2)) with (Some (mk SNewline [13; 10] [13; 10], s2)) in Hs. injection Hs as <- <-.
-           cbn [s_raw mk tview s_kind app]. rewrite !afold_cons, (lineish_eol V0 st a 13 Hl eq_refl).
-           exact (IH HT' Hr (V0 ++ [a]) _ (or_introl eq_refl)).
+           cbn [s_raw mk]. rewrite !afold_cons, (lineish_eol V0 st a 13 Hl eq_refl).
+           exact (IH HT' Hr _ _ (or_introl eq_refl)).
         -- exfalso. unfold spec_step in Hs. cbn -[spec_symbol] in Hs. apply Z.eqb_neq in Ed.
            destruct d as [|d|d]; try discriminate Hs. repeat (destruct d as [d|d|]; try discriminate Hs). congruence.
 Qed.
@@ -393,7 +415,7 @@ Proof. intros H. cbn [stops]. unfold not_eol. rewrite H. reflexivity. Qed.
 
 Definition arun_seg_stmt (X : list Z) : Prop :=
   forall V R V' E, arun (V, AN) X = Some (V', E) -> crlf_only (X ++ R) = true -> starts_code R -> (E = EL -> R = []) ->
-  exists toks, seg (X ++ R) toks R /\ Forall trivial toks /\ V' = V ++ views toks.
+  exists toks, seg (X ++ R) toks R /\ Forall trivial toks /\ V' = addtoks V toks.
 
 (* the end of an end-of-line comment: o = `--` / `//`, p the rest of the comment, Y what follows it in the text *)
 Lemma line_finish n (IH : forall X, (length X <= n)%nat -> arun_seg_stmt X) o p Y V R V' E st :
@@ -401,22 +423,21 @@ Lemma line_finish n (IH : forall X, (length X <= n)%nat -> arun_seg_stmt X) o p 
   lineish st (nonws (o ++ p)) -> arun (V, st) Y = Some (V', E) ->
   (stops not_eol (Y ++ R) -> spec_step ((o ++ p) ++ Y ++ R) = Some (mk SComment (o ++ p) (o ++ p), Y ++ R)) ->
   crlf_only (Y ++ R) = true -> starts_code R -> (E = EL -> R = []) ->
-  exists toks, seg ((o ++ p) ++ Y ++ R) toks R /\ Forall trivial toks /\ V' = V ++ views toks.
+  exists toks, seg ((o ++ p) ++ Y ++ R) toks R /\ Forall trivial toks /\ V' = addtoks V toks.
 Proof.
   intros Hlen Hp HY Hl Hrun Hspec Hcr HR HE. destruct HY as [->|(e & Y1 & -> & He)].
   - unfold arun in Hrun. cbn [afold fold_left] in Hrun. rewrite (lineish_final V st _ Hl) in Hrun. injection Hrun as <- <-.
     rewrite (HE eq_refl) in *. cbn [app] in *. exists [mk SComment (o ++ p) (o ++ p)]. split; [|split].
     + econstructor; [apply Hspec; exact I | constructor].
     + constructor; [reflexivity | constructor].
-    + cbn [views flat_map tview s_kind mk s_raw app]. reflexivity.
-  - assert (Hrun' : arun (V ++ [nonws (o ++ p)], AN) (e :: Y1) = Some (V', E)).
-    { rewrite arun_cons in Hrun. rewrite (lineish_eol V st _ e Hl He) in Hrun. rewrite arun_cons, delta_N_ws; [exact Hrun|].
-      change (eolb e) with (is_eol e). rewrite He. reflexivity. }
+    + reflexivity.
+  - assert (Hrun' : arun (emitc V (nonws (o ++ p)), AN) (e :: Y1) = Some (V', E)).
+    { rewrite arun_cons in Hrun. rewrite (lineish_eol V st _ e Hl He) in Hrun. rewrite arun_cons, delta_N_eol by exact He. exact Hrun. }
     destruct (IH (e :: Y1) Hlen _ R _ _ Hrun' Hcr HR HE) as (toks & Hseg & Htr & Hv).
     exists (mk SComment (o ++ p) (o ++ p) :: toks). split; [|split].
     + econstructor; [apply Hspec; cbn [app]; apply stops_not_eol_cons, He | exact Hseg].
     + constructor; [reflexivity | exact Htr].
-    + rewrite Hv. cbn [views flat_map tview s_kind mk s_raw]. fold (views toks). rewrite <- app_assoc. reflexivity.
+    + rewrite Hv. reflexivity.
 Qed.
 
 Lemma span_not_eol_tail p Y : LuaLex.span not_eol (p ++ Y) = (p, Y) -> Y = [] \/ exists e Y1, Y = e :: Y1 /\ is_eol e = true.
@@ -429,10 +450,10 @@ Lemma arun_seg : forall n X, (length X <= n)%nat -> arun_seg_stmt X.
 Proof.
   induction n as [|n IH]; intros X Hlen V R V' E Hrun Hcr HR HE.
   - destruct X; [|cbn in Hlen; lia]. unfold arun in Hrun. cbn in Hrun. injection Hrun as <- <-.
-    exists []. split; [constructor|]. split; [constructor | rewrite app_nil_r; reflexivity].
+    exists []. split; [constructor|]. split; [constructor | reflexivity].
   - destruct X as [|c X1].
     { unfold arun in Hrun. cbn in Hrun. injection Hrun as <- <-.
-      exists []. split; [constructor|]. split; [constructor | rewrite app_nil_r; reflexivity]. }
+      exists []. split; [constructor|]. split; [constructor | reflexivity]. }
     cbn [length] in Hlen.
     destruct (is_blank c) eqn:Eb.
     { (* a stretch of blanks *)
@@ -451,29 +472,28 @@ Proof.
       - constructor; [reflexivity | exact Htr].
       - exact Hv. }
     destruct (c =? 10) eqn:E10.
-    { apply Z.eqb_eq in E10. subst c. rewrite arun_cons in Hrun. change (delta (V, AN) 10) with (V, AN) in Hrun.
+    { apply Z.eqb_eq in E10. subst c. rewrite arun_cons in Hrun. change (delta (V, AN) 10) with (emitn V, AN) in Hrun.
       cbn [app] in Hcr. rewrite crlf_only_cons in Hcr. cbn in Hcr.
-      destruct (IH X1 ltac:(lia) V R V' E Hrun Hcr HR HE) as (toks & Hseg & Htr & Hv).
+      destruct (IH X1 ltac:(lia) _ R V' E Hrun Hcr HR HE) as (toks & Hseg & Htr & Hv).
       exists (mk SNewline [10] [10] :: toks). split; [|split].
       - cbn [app]. econstructor; [reflexivity | exact Hseg].
       - constructor; [reflexivity | exact Htr].
       - exact Hv. }
     destruct (c =? 13) eqn:E13.
-    { apply Z.eqb_eq in E13. subst c. rewrite arun_cons in Hrun. change (delta (V, AN) 13) with (V, AN) in Hrun.
+    { apply Z.eqb_eq in E13. subst c. rewrite arun_cons in Hrun. change (delta (V, AN) 13) with (emitn V, AN) in Hrun.
       cbn [app] in Hcr. rewrite crlf_only_cons in Hcr. cbn [Z.eqb Pos.eqb] in Hcr. apply andb_true_iff in Hcr. destruct Hcr as [Hh Hcr].
       destruct X1 as [|d X2].
       - exfalso. cbn [app] in Hh. destruct HR as [->|(x & r' & -> & _ & Hx)]; [discriminate Hh|]. cbn [hd10] in Hh.
         apply Z.eqb_eq in Hh. subst x. discriminate Hx.
-      - cbn [app hd10] in Hh. apply Z.eqb_eq in Hh. subst d. rewrite arun_cons in Hrun. change (delta (V, AN) 10) with (V, AN) in Hrun.
+      - cbn [app hd10] in Hh. apply Z.eqb_eq in Hh. subst d. rewrite arun_cons in Hrun. change (delta (emitn V, AN) 10) with (emitn V, AN) in Hrun.
         cbn [app] in Hcr. rewrite crlf_only_cons in Hcr. cbn in Hcr. cbn [length] in Hlen.
-        destruct (IH X2 ltac:(lia) V R V' E Hrun Hcr HR HE) as (toks & Hseg & Htr & Hv).
+        destruct (IH X2 ltac:(lia) _ R V' E Hrun Hcr HR HE) as (toks & Hseg & Htr & Hv).
         exists (mk SNewline [13; 10] [13; 10] :: toks). split; [|split].
         + cbn [app]. econstructor; [reflexivity | exact Hseg].
         + constructor; [reflexivity | exact Htr].
         + exact Hv. }
-    assert (Hws : eolb c || blankb c = false).
-    { unfold eolb. rewrite E10, E13. cbn [orb]. exact Eb. }
-    rewrite arun_cons in Hrun. unfold delta in Hrun. rewrite Hws in Hrun.
+    assert (Hws : eolb c = false) by (unfold eolb; rewrite E10, E13; reflexivity).
+    rewrite arun_cons in Hrun. unfold delta in Hrun. rewrite Hws in Hrun. change (blankb c) with (is_blank c) in Hrun. rewrite Eb in Hrun.
     destruct (c =? 45) eqn:E45.
     { (* -- *)
       apply Z.eqb_eq in E45. subst c. destruct X1 as [|d X2]; [discriminate Hrun|].
@@ -510,7 +530,7 @@ Proof.
         + econstructor; [|exact Hseg]. cbn [app]. rewrite dash_eq. cbn [Z.eqb Pos.eqb]. rewrite long_open_eq. cbn [Z.eqb Pos.eqb].
           rewrite <- !app_assoc. rewrite Hctx. reflexivity.
         + constructor; [reflexivity | exact Htr].
-        + rewrite Hv. cbn [views flat_map tview s_kind mk s_raw]. fold (views toks). rewrite <- app_assoc. reflexivity.
+        + rewrite Hv. reflexivity.
       - (* --[=[ : outside the dialect *)
         rewrite (auto_class_undef X2 V Ecl) in Hrun. discriminate Hrun. }
     destruct (c =? 47) eqn:E47.
